@@ -13,6 +13,7 @@ import (
 	"fmt"
 	"math"
 	"runtime/debug"
+	"strings"
 
 	"verif/guardmem"
 	"verif/mc"
@@ -25,6 +26,79 @@ var c18Menu = []float32{1, -1, 255, -255, 0.5, -0.5, 3, -3, 1e-3, -1e-3, 1e3, -1
 
 // asmAvailable is what the package's own init decided on this CPU.
 var asmAvailable = transforms32.FlagUseASM
+
+// c18Dispatch64/256 are the kernels the library's own init bound to the exported
+// variables on this CPU (assembly or portable), kept before c18Portable re-points them.
+var c18Dispatch64, c18Dispatch256 = transforms32.ForwardDCT64, transforms32.ForwardDCT256
+
+// c18ArgLens: the exported one-dimensional kernels on arguments that are shorter or
+// longer than the transform.  The portable kernels index their argument and so
+// panic on a short one and leave the tail of a long one alone; whichever kernel the
+// machine selects has to do the same and must not touch anything beyond the argument.
+func c18ArgLens(x *mc.Exec) {
+	debug.SetPanicOnFault(true)
+	ki := x.All("kernel", 2)
+	lens := [][]int{{0, 1, 8, 16, 31, 32, 33, 48, 63, 64, 65, 72, 96, 128}, {0, 1, 64, 128, 192, 255, 256, 257, 264, 320, 512}}[ki]
+	ln := lens[x.All("length", len(lens))]
+	flush := x.All("placement", 2) == 1
+	n := []int{64, 256}[ki]
+	name := []string{"dct64", "dct256"}[ki]
+	fs := newFailSet(name + ".argument-length")
+	goK := []func([]float32){transforms32.VerifForwardDCT64Go, transforms32.VerifForwardDCT256Go}[ki]
+	dispK := []func([]float32){c18Dispatch64, c18Dispatch256}[ki]
+	var a, g []float32
+	var bufs []*guardmem.Buf
+	if ln > 0 {
+		ba, bg := guardmem.Alloc(4*ln, flush, 32), guardmem.Alloc(4*ln, flush, 32)
+		defer ba.Free()
+		defer bg.Free()
+		bufs = []*guardmem.Buf{ba, bg}
+		a, g = ba.Float32s(), bg.Float32s()
+		for i := range a {
+			a[i] = float32(int(lcgByte(18, i, ln))-128) / 8
+			g[i] = a[i]
+		}
+	}
+	at := fmt.Sprintf("%s on an argument of %d elements (%s-flush)", name, ln, map[bool]string{false: "start", true: "end"}[flush])
+	pa := mc.Guard(func() { goK(a) })
+	pg := mc.Guard(func() { dispK(g) })
+	isFault := func(p *mc.PanicInfo) bool {
+		return p != nil && (strings.Contains(p.Value, "fault") || strings.Contains(p.Value, "invalid memory address") || strings.Contains(p.Value, "nil pointer"))
+	}
+	switch {
+	case isFault(pg):
+		fs.add("memory outside the argument was accessed", at+": the selected kernel faulted: "+pg.Value)
+	case isFault(pa):
+		fs.add("memory outside the argument was accessed", at+": the portable kernel faulted: "+pa.Value)
+	case (pa != nil) != (pg != nil):
+		d := func(p *mc.PanicInfo) string {
+			if p == nil {
+				return "returned"
+			}
+			return "panicked (" + p.Value + ")"
+		}
+		fs.add("selected kernel and portable kernel differ on a wrong-sized argument", at+": portable "+d(pa)+", selected "+d(pg))
+	case pa == nil:
+		for i := range a {
+			if math.Float32bits(a[i]) != math.Float32bits(g[i]) {
+				fs.add("asm!=go", fmt.Sprintf("%s: element %d: portable %g selected %g", at, i, a[i], g[i]))
+				break
+			}
+		}
+		if ln > n {
+			for i := n; i < ln; i++ {
+				if want := float32(int(lcgByte(18, i, ln))-128) / 8; a[i] != want || g[i] != want {
+					fs.add("elements behind the transform size were changed", fmt.Sprintf("%s: element %d", at, i))
+					break
+				}
+			}
+		}
+	}
+	canaryCheck(fs, name, bufs...)
+	x.Outcome = fmt.Sprintf("%s/%v/%v", name, pa != nil, pg != nil)
+	x.InputID = hashBytes([]byte{byte(ki), byte(ln), byte(ln >> 8), b2i(flush)})
+	c18Flush(fs, x, 1)
+}
 
 // c18Portable makes the exported dispatch variables point at the portable
 // kernels, so that the library's exported 2-D functions run their Go path
@@ -906,6 +980,8 @@ func init() {
 					Rule: "assembly vs portable bitwise on vectors with one or two entries from {+-1e-30, +-min normal, subnormals down to 1.4e-45, 1, -255} (all second positions x 64 first positions) for the 64- and 256-point kernels, same-row/same-column pairs and a dense scaled noise image for the 64x64 kernel: gradual underflow must be identical"},
 				{Name: "signed-zeros", H: c18Zeros, NoLevels: true, SplitDepth: 1, Isolate: true,
 					Rule: "vectors of signed zeros (all -0; -0 at even / odd indices; one -0; one +0 or one 1 among -0, at every position) for the 64- and 256-point kernels and the 64x64 kernel: assembly vs portable bitwise, the sign of a zero included"},
+				{Name: "argument-lengths", H: c18ArgLens, NoLevels: true, SplitDepth: 1, Isolate: true,
+					Rule: "the exported ForwardDCT64 / ForwardDCT256 as bound by the library's init on this CPU, on arguments of 0..128 resp. 0..512 elements (14 + 11 lengths) flush against a guard page on either side: panics exactly where the portable kernel panics, bitwise the same result where it returns, elements behind the transform size untouched, no fault and no canary overwritten"},
 				{Name: "dense-edge-vectors", H: c18Dense, NoLevels: true, SplitDepth: 1, Isolate: true,
 					Rule: "constant, alternating, ramp vectors for each menu value, every DCT basis vector at two amplitudes, 64 fixed LCG vectors over 13 decades; 4 kernels x 2 flush positions"},
 				{Name: "exported-2d", H: c18Exported(map[bool]int{true: 1, false: 8}[tier == "thorough"]), NoLevels: true, SplitDepth: 1, Isolate: true,
